@@ -212,9 +212,12 @@ def e2e_cases(rng, tier, sources):
     cases = []
     pads = [0, 1, 7, 40]
 
-    def add(project, target, cap_order, cap_pad, order, pad, shape):
-        cases.append({"files": project.wire(), "target": target, "cap_order": cap_order, "cap_pad": cap_pad,
-                      "order": order, "pad": pad, "_shape": shape, "_tags": sorted(project.tags)})
+    def add(project, target, cap_order, cap_pad, order, pad, shape, defines=None):
+        c = {"files": project.wire(), "target": target, "cap_order": cap_order, "cap_pad": cap_pad,
+             "order": order, "pad": pad, "_shape": shape, "_tags": sorted(project.tags)}
+        if defines:
+            c["defines"] = defines
+        cases.append(c)
 
     # 1. every repository test case as a single-file project (+ offsets)
     tcs = sources if tier != "quick" else rng.sample(sources, 24)
@@ -244,6 +247,33 @@ def e2e_cases(rng, tier, sources):
                     keep = [i for i in cap if i == t or rng.random() < 0.6]
                     cap = keep
                 add(p, t, cap, rng.choice(pads), order, rng.choice(pads), "generated")
+    # 5. files sharing `$sv::ns::member` references (same member name under several namespaces): the
+    #    fragment is captured in the full project (any order) and restored where the files that
+    #    registered the shared members first are absent, or come later, or the target stands alone
+    for k in range(8 if tier == "quick" else 80):
+        n = rng.randint(2, 3)
+        p = G.sv_shared_project(rng, n, prefix="Sv%d_" % k)
+        for t in range(n):
+            cap = list(range(n))
+            rng.shuffle(cap)
+            if cap[0] == t and n > 1:            # something must come before the target at capture
+                cap[0], cap[1] = cap[1], cap[0]
+            others = [i for i in range(n) if i != t]
+            variants = [[t] + others, [t], [t] + others[1:], others[-1:] + [t] + others[:-1]]
+            rng.shuffle(variants)
+            for order in variants[:2 if tier == "quick" else 4]:
+                add(p, t, cap, rng.choice(pads), order, rng.choice(pads), "sv-shared")
+    # 6. conditional attributes (#[ifdef]/#[ifndef]/#[elsif]/#[else]) with different define sets
+    for k in range(4 if tier == "quick" else 40):
+        n = rng.randint(1, 3)
+        p = G.ifdef_project(rng, n, prefix="If%d_" % k)
+        t = rng.randrange(n)
+        for defs in ([], ["VH_A"], ["VH_A", "VH_B"])[: 2 if tier == "quick" else 3] if tier != "quick" else rng.sample([[], ["VH_A"], ["VH_B"], ["VH_A", "VH_B"]], 2):
+            order = list(range(n))
+            rng.shuffle(order)
+            cap = list(range(n))
+            rng.shuffle(cap)
+            add(p, t, cap, rng.choice(pads), order, rng.choice(pads), "ifdef", defs)
     # 4. mixed
     for k in range(2 if tier == "quick" else 30):
         p = G.mixed_project(rng, sources, 2, 2, prefix="Mx%d_" % k)
